@@ -811,52 +811,52 @@ def InitOK (dest : String) (fs : FS) (heap : List TRef) (c : Option Nat) (b : By
   ∃ id t, c = some id ∧ heap[id]? = some t ∧ Holds dest fs t b
 
 /-- The `ext`-tagged initializers with their bytes (parallel to `extInputs`). -/
-def extB (heap : List TRef) (tnames : List String) : List (Option Nat) → List Bytes → List (String × Nat × Bytes)
+def extB (thr : Nat) (heap : List TRef) (tnames : List String) : List (Option Nat) → List Bytes → List (String × Nat × Bytes)
   | some id :: cv, b :: bs =>
-    if classify heap (some id) = .ext then (tnames.getD id "", id, b) :: extB heap tnames cv bs
-    else extB heap tnames cv bs
-  | none :: cv, _ :: bs => extB heap tnames cv bs
+    if classify thr heap (some id) = .ext then (tnames.getD id "", id, b) :: extB thr heap tnames cv bs
+    else extB thr heap tnames cv bs
+  | none :: cv, _ :: bs => extB thr heap tnames cv bs
   | _, _ => []
 
 /-- The `mem`-tagged initializers with their bytes (parallel to `memInputs`). -/
-def memB (heap : List TRef) : List (Option Nat) → List Bytes → List (Nat × Bytes)
+def memB (thr : Nat) (heap : List TRef) : List (Option Nat) → List Bytes → List (Nat × Bytes)
   | some id :: cv, b :: bs =>
-    if classify heap (some id) = .mem then (id, b) :: memB heap cv bs else memB heap cv bs
-  | none :: cv, _ :: bs => memB heap cv bs
+    if classify thr heap (some id) = .mem then (id, b) :: memB thr heap cv bs else memB thr heap cv bs
+  | none :: cv, _ :: bs => memB thr heap cv bs
   | _, _ => []
 
-theorem extB_inputs (dest : String) (fs : FS) (heap : List TRef) (tnames : List String) :
+theorem extB_inputs (thr : Nat) (dest : String) (fs : FS) (heap : List TRef) (tnames : List String) :
     ∀ {cv bs}, All2 (InitOK dest fs heap) cv bs →
-      (extB heap tnames cv bs).map (fun x => (x.1, x.2.1)) = extInputs heap tnames cv
+      (extB thr heap tnames cv bs).map (fun x => (x.1, x.2.1)) = extInputs thr heap tnames cv
   | _, _, .nil => rfl
   | _, _, .cons (a := c) hr ht => by
     obtain ⟨id, t, rfl, _, _⟩ := hr
     simp only [extB, extInputs]
     split
-    · simp [extB_inputs dest fs heap tnames ht]
-    · exact extB_inputs dest fs heap tnames ht
+    · simp [extB_inputs thr dest fs heap tnames ht]
+    · exact extB_inputs thr dest fs heap tnames ht
 
-theorem memB_inputs (dest : String) (fs : FS) (heap : List TRef) :
-    ∀ {cv bs}, All2 (InitOK dest fs heap) cv bs → (memB heap cv bs).map (·.1) = memInputs heap cv
+theorem memB_inputs (thr : Nat) (dest : String) (fs : FS) (heap : List TRef) :
+    ∀ {cv bs}, All2 (InitOK dest fs heap) cv bs → (memB thr heap cv bs).map (·.1) = memInputs thr heap cv
   | _, _, .nil => rfl
   | _, _, .cons (a := c) hr ht => by
     obtain ⟨id, t, rfl, _, _⟩ := hr
     simp only [memB, memInputs]
     split
-    · simp [memB_inputs dest fs heap ht]
-    · exact memB_inputs dest fs heap ht
+    · simp [memB_inputs thr dest fs heap ht]
+    · exact memB_inputs thr dest fs heap ht
 
-theorem classify_some (heap : List TRef) (id : Nat) (t : TRef) (h : heap[id]? = some t) :
-    classify heap (some id) =
-      if t.nbytes > sizeThreshold then Tag.ext else (match t with | .ext _ _ _ _ => Tag.mem | .mem _ _ => Tag.keep) := by
+theorem classify_some (thr : Nat) (heap : List TRef) (id : Nat) (t : TRef) (h : heap[id]? = some t) :
+    classify thr heap (some id) =
+      if t.nbytes > thr then Tag.ext else (match t with | .ext _ _ _ _ => Tag.mem | .mem _ _ => Tag.keep) := by
   unfold classify
   simp only [h]
   split
   · rfl
   · cases t <;> rfl
 
-theorem extB_writable (dest : String) (s : St) (tnames : List String) :
-    ∀ {cv bs}, All2 (InitOK dest s.fs s.heap) cv bs → ∀ x ∈ extB s.heap tnames cv bs, Writable dest s x.2.1 x.2.2
+theorem extB_writable (thr : Nat) (dest : String) (s : St) (tnames : List String) :
+    ∀ {cv bs}, All2 (InitOK dest s.fs s.heap) cv bs → ∀ x ∈ extB thr s.heap tnames cv bs, Writable dest s x.2.1 x.2.2
   | _, _, .nil => by intro x hx; simp [extB] at hx
   | _, _, .cons (a := c) (b := b) hr ht => by
     intro x hx
@@ -867,17 +867,17 @@ theorem extB_writable (dest : String) (s : St) (tnames : List String) :
       simp only [List.mem_cons] at hx
       rcases hx with rfl | hx
       · refine ⟨t, h1, h2, ?_⟩
-        rw [classify_some _ _ _ h1] at hc
+        rw [classify_some thr _ _ _ h1] at hc
         have hn := holds_nbytes h2
-        by_cases hbig : t.nbytes > sizeThreshold
-        · unfold sizeThreshold at hbig; simp only []; omega
+        by_cases hbig : t.nbytes > thr
+        · simp only []; omega
         · simp only [hbig, if_false] at hc
           cases t <;> simp at hc
-      · exact extB_writable dest s tnames ht x hx
-    · exact extB_writable dest s tnames ht x hx
+      · exact extB_writable thr dest s tnames ht x hx
+    · exact extB_writable thr dest s tnames ht x hx
 
-theorem memB_ext (dest : String) (fs : FS) (heap : List TRef) :
-    ∀ {cv bs}, All2 (InitOK dest fs heap) cv bs → ∀ x ∈ memB heap cv bs,
+theorem memB_ext (thr : Nat) (dest : String) (fs : FS) (heap : List TRef) :
+    ∀ {cv bs}, All2 (InitOK dest fs heap) cv bs → ∀ x ∈ memB thr heap cv bs,
       ∃ f off len, heap[x.1]? = some (.ext f off len true) ∧ FS.read fs f off len = some x.2
   | _, _, .nil => by intro x hx; simp [memB] at hx
   | _, _, .cons (a := c) (b := b) hr ht => by
@@ -888,8 +888,8 @@ theorem memB_ext (dest : String) (fs : FS) (heap : List TRef) :
     · rename_i hc
       simp only [List.mem_cons] at hx
       rcases hx with rfl | hx
-      · rw [classify_some _ _ _ h1] at hc
-        by_cases hbig : t.nbytes > sizeThreshold
+      · rw [classify_some thr _ _ _ h1] at hc
+        by_cases hbig : t.nbytes > thr
         · simp [hbig] at hc
         · simp only [hbig, if_false] at hc
           cases t with
@@ -897,8 +897,8 @@ theorem memB_ext (dest : String) (fs : FS) (heap : List TRef) :
           | ext f off len v =>
             obtain ⟨rfl, _, h3⟩ := h2
             exact ⟨f, off, len, h1, h3⟩
-      · exact memB_ext dest fs heap ht x hx
-    · exact memB_ext dest fs heap ht x hx
+      · exact memB_ext thr dest fs heap ht x hx
+    · exact memB_ext thr dest fs heap ht x hx
 
 /-- `convert_tensors_from_external` on the small external tensors: fresh in-memory copies with the same bytes. -/
 theorem memLoad_ok : ∀ (mb : List (Nat × Bytes)) (s : St), s.k = none →
@@ -927,19 +927,19 @@ def FinalOK (dest : String) (sF : St) (c : Option Nat) (b : Bytes) : Prop :=
     ((∃ np, sF.heap[id]? = some (.mem b np)) ∨
      (∃ o, sF.heap[id]? = some (.ext dest o b.length true) ∧ FS.read sF.fs dest o b.length = some b))
 
-theorem merge_ok (dest : String) (fs0 : FS) (heap0 : List TRef) (tnames : List String) (sF : St)
+theorem merge_ok (thr : Nat) (dest : String) (fs0 : FS) (heap0 : List TRef) (tnames : List String) (sF : St)
     (hpre : heap0 <+: sF.heap) :
     ∀ {cv bs}, All2 (InitOK dest fs0 heap0) cv bs → ∀ (es ms : List Nat),
-      All2 (NewExt dest sF) (extB heap0 tnames cv bs) es →
-      All2 (fun (x : Nat × Bytes) nid => sF.heap[nid]? = some (.mem x.2 true)) (memB heap0 cv bs) ms →
-      All2 (FinalOK dest sF) (mergeCv heap0 cv es ms) bs
+      All2 (NewExt dest sF) (extB thr heap0 tnames cv bs) es →
+      All2 (fun (x : Nat × Bytes) nid => sF.heap[nid]? = some (.mem x.2 true)) (memB thr heap0 cv bs) ms →
+      All2 (FinalOK dest sF) (mergeCv thr heap0 cv es ms) bs
   | _, _, .nil => by intro es ms _ _; exact .nil
   | _, _, .cons (a := c) (b := b) (as := cv) (bs := bs) hr ht => by
     intro es ms he hm
     obtain ⟨id, t, rfl, h1, h2⟩ := hr
-    have hcl := classify_some _ _ _ h1
+    have hcl := classify_some thr _ _ _ h1
     simp only [extB, memB] at he hm
-    by_cases hbig : t.nbytes > sizeThreshold
+    by_cases hbig : t.nbytes > thr
     · simp only [hbig, if_true] at hcl
       simp only [hcl, if_true] at he
       have hne : ¬ (Tag.ext = Tag.mem) := by decide
@@ -948,7 +948,7 @@ theorem merge_ok (dest : String) (fs0 : FS) (heap0 : List TRef) (tnames : List S
       | cons hx hrest =>
         rename_i e es'
         simp only [mergeCv, hcl]
-        refine .cons ?_ (merge_ok dest fs0 heap0 tnames sF hpre ht es' ms hrest hm)
+        refine .cons ?_ (merge_ok thr dest fs0 heap0 tnames sF hpre ht es' ms hrest hm)
         obtain ⟨o, g1, g2⟩ := hx
         exact ⟨e, rfl, Or.inr ⟨o, g1, g2⟩⟩
     · simp only [hbig, if_false] at hcl
@@ -958,10 +958,10 @@ theorem merge_ok (dest : String) (fs0 : FS) (heap0 : List TRef) (tnames : List S
         have hne1 : ¬ (Tag.keep = Tag.ext) := by decide
         have hne2 : ¬ (Tag.keep = Tag.mem) := by decide
         simp only [hcl, hne1, hne2, if_false] at he hm
-        have hm' : mergeCv heap0 (some id :: cv) es ms = some id :: mergeCv heap0 cv es ms := by
+        have hm' : mergeCv thr heap0 (some id :: cv) es ms = some id :: mergeCv thr heap0 cv es ms := by
           simp only [mergeCv, hcl]
         rw [hm']
-        refine .cons ?_ (merge_ok dest fs0 heap0 tnames sF hpre ht es ms he hm)
+        refine .cons ?_ (merge_ok thr dest fs0 heap0 tnames sF hpre ht es ms he hm)
         simp only [Holds] at h2
         subst h2
         exact ⟨id, rfl, Or.inl ⟨np, getElem?_prefix hpre h1⟩⟩
@@ -973,27 +973,27 @@ theorem merge_ok (dest : String) (fs0 : FS) (heap0 : List TRef) (tnames : List S
         cases hm with
         | cons hx hrest =>
           rename_i m ms'
-          have hm' : mergeCv heap0 (some id :: cv) es (m :: ms') = some m :: mergeCv heap0 cv es ms' := by
+          have hm' : mergeCv thr heap0 (some id :: cv) es (m :: ms') = some m :: mergeCv thr heap0 cv es ms' := by
             cases es <;> simp only [mergeCv, hcl]
           rw [hm']
-          refine .cons ?_ (merge_ok dest fs0 heap0 tnames sF hpre ht es ms' he hrest)
+          refine .cons ?_ (merge_ok thr dest fs0 heap0 tnames sF hpre ht es ms' he hrest)
           exact ⟨m, rfl, Or.inl ⟨true, hx⟩⟩
 
-theorem unload_ok (dest : String) (verbose : Bool) (tnames : List String) (s : St) (bs : List Bytes)
+theorem unload_ok (thr : Nat) (dest : String) (verbose : Bool) (tnames : List String) (s : St) (bs : List Bytes)
     (hk : s.k = none) (hinit : All2 (InitOK dest s.fs s.heap) s.cv bs) :
-    ∃ s' img, unload tnames dest verbose s = (.ok (), s') ∧ s'.k = s.k ∧ s'.wopened = s.wopened ++ [dest] ∧
+    ∃ s' img, unload thr tnames dest verbose s = (.ok (), s') ∧ s'.k = s.k ∧ s'.wopened = s.wopened ++ [dest] ∧
       s'.fs = FS.set s.fs dest (.data img) ∧ All2 (FinalOK dest s') s'.cv bs := by
   unfold unload
   simp only [bind_apply, get_apply]
-  rw [← memB_inputs dest s.fs s.heap hinit]
-  obtain ⟨memIds, s1, e1, fr1, fs1, hp1, hmem⟩ := memLoad_ok (memB s.heap s.cv bs) s hk (memB_ext dest s.fs s.heap hinit)
+  rw [← memB_inputs thr dest s.fs s.heap hinit]
+  obtain ⟨memIds, s1, e1, fr1, fs1, hp1, hmem⟩ := memLoad_ok (memB thr s.heap s.cv bs) s hk (memB_ext thr dest s.fs s.heap hinit)
   rw [e1]
   simp only []
-  rw [← extB_inputs dest s.fs s.heap tnames hinit]
+  rw [← extB_inputs thr dest s.fs s.heap tnames hinit]
   obtain ⟨extIds, s3, img, e3, k3, cv3, hp3, wo3, fs3, hext⟩ := convertToExternal_ok dest verbose
-    (extB s.heap tnames s.cv bs) s1 (by rw [fr1.k]; exact hk) (by
+    (extB thr s.heap tnames s.cv bs) s1 (by rw [fr1.k]; exact hk) (by
       intro x hx
-      obtain ⟨t, g1, g2, g3⟩ := extB_writable dest s tnames hinit x hx
+      obtain ⟨t, g1, g2, g3⟩ := extB_writable thr dest s tnames hinit x hx
       exact ⟨t, getElem?_prefix hp1 g1, by rw [fs1]; exact g2, g3⟩)
   rw [e3]
   simp only [modify_apply]
@@ -1001,8 +1001,8 @@ theorem unload_ok (dest : String) (verbose : Bool) (tnames : List String) (s : S
   · show s3.k = s.k; rw [k3, fr1.k]
   · show s3.wopened = _; rw [wo3, fr1.wo]
   · show s3.fs = _; rw [fs3, fs1]
-  · show All2 (FinalOK dest { s3 with cv := mergeCv s.heap s.cv extIds memIds }) (mergeCv s.heap s.cv extIds memIds) bs
-    apply merge_ok dest s.fs s.heap tnames _ (List.IsPrefix.trans hp1 hp3) hinit extIds memIds
+  · show All2 (FinalOK dest { s3 with cv := mergeCv thr s.heap s.cv extIds memIds }) (mergeCv thr s.heap s.cv extIds memIds) bs
+    apply merge_ok thr dest s.fs s.heap tnames _ (List.IsPrefix.trans hp1 hp3) hinit extIds memIds
     · exact hext.imp (fun x nid h => h)
     · exact hmem.imp (fun x nid h => getElem?_prefix hp3 h)
 
@@ -1101,16 +1101,16 @@ theorem read_congr (fs fs' : FS) (f : String) (o l : Nat) (h : FS.get? fs' f = F
 
 /-- `ir.save`, fault-free, then `load` — from the resulting file system or from any file system that agrees with it on
 the two files written. -/
-theorem irSave_load_ok (sig : List (String × Bool)) (tnames : List String) (dir name : String) (verbose : Bool)
+theorem irSave_load_ok (thr : Nat) (sig : List (String × Bool)) (tnames : List String) (dir name : String) (verbose : Bool)
     (s : St) (bs : List Bytes) (hk : s.k = none) (hsig : sig.length = s.cv.length)
     (hinit : All2 (InitOK (joinPath dir (name ++ ".data")) s.fs s.heap) s.cv bs) :
-    ∃ s', irSave sig tnames dir name (name ++ ".data") verbose s = (.ok (), s') ∧
+    ∃ s', irSave thr sig tnames dir name (name ++ ".data") verbose s = (.ok (), s') ∧
       ∀ fs', FS.get? fs' (joinPath dir name) = FS.get? s'.fs (joinPath dir name) →
         FS.get? fs' (joinPath dir (name ++ ".data")) = FS.get? s'.fs (joinPath dir (name ++ ".data")) →
         load fs' dir name = some (zip3 sig bs) := by
   unfold irSave tryFinally
   simp only [bind_apply, get_apply]
-  obtain ⟨s4, img, e4, k4, wo4, fs4, hfin⟩ := unload_ok (joinPath dir (name ++ ".data")) verbose tnames s bs hk hinit
+  obtain ⟨s4, img, e4, k4, wo4, fs4, hfin⟩ := unload_ok thr (joinPath dir (name ++ ".data")) verbose tnames s bs hk hinit
   rw [e4]
   simp only [modify_apply]
   have hlen : sig.length = s4.cv.length := by
@@ -1150,7 +1150,7 @@ theorem save_load_ok (cfg : Cfg) (sig : List (String × Bool)) (tnames : List St
     intro c hc
     obtain ⟨b, id, t, rfl, _, _⟩ := all2_mem_left hinit c hc
     simp
-  obtain ⟨s', h1, h2⟩ := irSave_load_ok sig tnames dir name verbose s bs hk hsig hinit
+  obtain ⟨s', h1, h2⟩ := irSave_load_ok cfg.thr sig tnames dir name verbose s bs hk hsig hinit
   unfold save
   simp only [bind_apply, get_apply, guardHits_nil cfg.deep sig s.cv hnone, destHits_nil _ _ _ hinit, List.isEmpty_nil,
     Bool.not_true, Bool.false_eq_true, Bool.and_false, if_false]
